@@ -12,10 +12,23 @@ member / sender strings, which are hex of their UTF-8 bytes.
 * `leaf m=<hex>`                                           → `ok`     (append to the pending member list)
 * `build slot=<k>`                                         → `ok <root hex|->` (layered tree of the pending list; list cleared)
 * `proof slot=<k> i=<idx>`                                 → `ok <h,h,…|->`   (layered proof of leaf idx)
-* `inst now= funds=<d:a,…|-> …`                            → `ok <obs>` | `err`
-* `exec now= op=<…> …`                                     → `ok <obs>` | `err <obs>`
+* `inst now= funds=<d:a,…|-> … res=<0|1>`                  → `ok roots= active= ## v= <cfg>` | `err ## v=`
+* `exec now= op=<…> … res=<0|1> [w_…=]`                    → `x roots= active= ## v= <cfg>`
 * `has now= m=<hex> proof=<s,s,…|->`                       → `ok 1` | `ok 0` | `err`
-* `mint now= sender=<hex> stage=<n|-> alloc=<n|-> proof=<s,…|-|none>` → `ok <count>` | `err`
+* `mint now= sender=<hex> stage=<n|-> alloc=<n|-> proof=<s,…|-|none> res=<0|1>` → `ok ## cnt=` | `err ## cnt=`
+
+Answers are `primary ## drift`; only `primary` decides agreement.
+
+PRIMARY = what C14 constrains and the mechanism state its theorems use: the committed root(s) after every message, the
+active stage, every `HasMember` answer, accept/reject of a mint as far as the Merkle gate decides it (gate closed ⇒
+`err`; gate open on the first mint of a `(sender, window)` with allowance ≥ 1 ⇒ `ok`), reject of an instantiate whose
+root is malformed.
+
+WITNESSES (`res=`, `w_*=`, appended by the harness = what the implementation decided in areas C14 does not own): accept /
+reject of an instantiate with well-formed roots, accept / reject and resulting windows, limits, admins of every message
+sent to the whitelist, accept / reject of a mint the gate lets through after the first one. The aspect model FOLLOWS them
+(`Op.wlMsg`, `Op.mint … res`); its own opinion — the prediction of today's rules, `MerkleWl.predict`,
+`instantiatePlain/Tiered` — goes behind ` ## ` as `v=` with the configuration it expected, next to the mint counter.
 -/
 open LP LP.Proto LP.Merkle LP.MerkleWl
 
@@ -41,34 +54,55 @@ def renderStages (l : List Stage) : String :=
 def renderStrs (l : List (List Nat)) : String := if l.isEmpty then "-" else String.intercalate "," (l.map bytesStr)
 def b01 (b : Bool) : String := if b then "1" else "0"
 
-def obs (now : Nat) (w : World) : String :=
-  match w.wl with
-  | .plain s =>
-    s!"roots={renderStrs [s.root]} start={s.start} end={s.end_} active={b01 (s.isActive now)} pal={s.pal} admins={renderNats s.admins} mut={b01 s.mutable_}"
+/-- primary observation: roots + active stage -/
+def obsP (now : Nat) (wl : Wl) : String :=
+  match wl with
+  | .plain s => s!"roots={renderStrs [s.root]} active={b01 (s.isActive now)}"
   | .tiered s =>
     let a := match activeIdx now s.stages with | some i => i + 1 | none => 0
-    s!"roots={renderStrs s.roots} stages={renderStages s.stages} active={a} admins={renderNats s.admins} mut={b01 s.mutable_}"
+    s!"roots={renderStrs s.roots} active={a}"
+
+/-- drift observation: the configuration C11/C12/C13 own -/
+def obsD (wl : Wl) : String :=
+  match wl with
+  | .plain s => s!"start={s.start} end={s.end_} pal={s.pal} admins={renderNats s.admins} mut={b01 s.mutable_}"
+  | .tiered s => s!"stages={renderStages s.stages} admins={renderNats s.admins} mut={b01 s.mutable_}"
 
 def coinsOf (l : List (Nat × Nat)) : List Coin := l.map fun (d, a) => ⟨d, a⟩
 
-def parseOp (ws : List String) : Option Op :=
+/-- the witnessed configuration after an accepted message (roots are not part of it) -/
+def parsePost (st : DS) (ws : List String) : Option Wl := do
+  let admins ← natListKv ws "w_admins"
+  let mu ← boolKv ws "w_mut"
+  if st.tiered then do
+    let stages ← (kv ws "w_stages").bind stages?
+    pure (.tiered ⟨[], stages, admins, mu⟩)
+  else do
+    let start ← natKv ws "w_start"; let en ← natKv ws "w_end"; let pal ← natKv ws "w_pal"
+    pure (.plain ⟨[], start, en, pal, admins, mu⟩)
+
+/-- today's rule for the message, for the DRIFT column -/
+def parseWlOp (st : DS) (ws : List String) : Option WlOp :=
+  let other : WlOp := if st.tiered then .tiered .other else .plain .other
   match kv ws "op" with
   | some "update_start" => do
-    let s ← natKv ws "sender"; let t ← natKv ws "t"; pure (.plain (.updateStart s t))
+    let s ← natKv ws "sender"; let t ← natKv ws "t"
+    pure (if st.tiered then other else .plain (.updateStart s t))
   | some "update_end" => do
-    let s ← natKv ws "sender"; let t ← natKv ws "t"; pure (.plain (.updateEnd s t))
-  | some "p_update_admins" => do
-    let s ← natKv ws "sender"; let a ← natListKv ws "admins"; let ok ← boolKv ws "ok"; pure (.plain (.updateAdmins s a ok))
-  | some "p_freeze" => do let s ← natKv ws "sender"; pure (.plain (.freeze s))
-  | some "p_migrate" => pure (.plain .migrate)
+    let s ← natKv ws "sender"; let t ← natKv ws "t"
+    pure (if st.tiered then other else .plain (.updateEnd s t))
+  | some "update_admins" => do
+    let s ← natKv ws "sender"; let a ← natListKv ws "admins"; let ok ← boolKv ws "ok"
+    pure (if st.tiered then .tiered (.updateAdmins s a ok) else .plain (.updateAdmins s a ok))
+  | some "freeze" => do
+    let s ← natKv ws "sender"
+    pure (if st.tiered then .tiered (.freeze s) else .plain (.freeze s))
+  | some "migrate" => pure (if st.tiered then .tiered .migrate else .plain .migrate)
   | some "update_stage" => do
     let s ← natKv ws "sender"; let id ← natKv ws "id"
-    let st ← optNatKv ws "start"; let en ← optNatKv ws "end"; let pal ← optNatKv ws "pal"; let dn ← optNatKv ws "denom"
-    pure (.tiered (.updateStage s id st en pal dn))
-  | some "t_update_admins" => do
-    let s ← natKv ws "sender"; let a ← natListKv ws "admins"; let ok ← boolKv ws "ok"; pure (.tiered (.updateAdmins s a ok))
-  | some "t_freeze" => do let s ← natKv ws "sender"; pure (.tiered (.freeze s))
-  | some "t_migrate" => pure (.tiered .migrate)
+    let sa ← optNatKv ws "start"; let en ← optNatKv ws "end"; let pal ← optNatKv ws "pal"; let dn ← optNatKv ws "denom"
+    pure (if st.tiered then .tiered (.updateStage s id sa en pal dn) else other)
+  | some "raw" => pure other
   | _ => none
 
 def c14Line (st : DS) (line : String) : DS × String :=
@@ -103,34 +137,43 @@ def c14Line (st : DS) (line : String) : DS × String :=
       | none => bad
     | _, _ => bad
   | some "inst" =>
-    let r : Option (Option World) := do
+    -- (aspect-model result, today's full validation) of the instantiate message
+    let r : Option (Option Wl × Option Wl) := do
       let now ← natKv ws "now"
       let funds ← pairListKv ws "funds"
       let admins ← natListKv ws "admins"
       let aok ← boolKv ws "admins_ok"
       let mu ← boolKv ws "mutable"
       let uok ← boolKv ws "uri_ok"
+      let res ← boolKv ws "res"
       if st.tiered then do
         let roots ← kv ws "roots"
         let stages ← (kv ws "stages").bind stages?
-        pure ((instantiateTiered now (coinsOf funds) ⟨strList roots, uok, stages, admins, aok, mu⟩).map
-          fun s => ⟨.tiered s, []⟩)
+        let m : TieredInit := ⟨strList roots, uok, stages, admins, aok, mu⟩
+        pure ((instTieredW m res).map Wl.tiered, (instantiateTiered now (coinsOf funds) m).map Wl.tiered)
       else do
         let root ← kv ws "root"
         let start ← natKv ws "start"; let en ← natKv ws "end"; let pal ← natKv ws "pal"
-        pure ((instantiatePlain now (coinsOf funds) ⟨strBytes root, uok, start, en, pal, admins, aok, mu⟩).map
-          fun s => ⟨.plain s, []⟩)
+        let m : PlainInit := ⟨strBytes root, uok, start, en, pal, admins, aok, mu⟩
+        pure ((instPlainW m res).map Wl.plain, (instantiatePlain now (coinsOf funds) m).map Wl.plain)
     match r, natKv ws "now" with
-    | some (some w), some now => ({ st with world := some w }, s!"ok {obs now w}")
-    | some none, _ => (st, "err")
+    | some (some wl, pred), some now =>
+      ({ st with world := some ⟨wl, []⟩ }, s!"ok {obsP now wl} ## v={if pred.isSome then "ok" else "err"} {obsD wl}")
+    | some (none, pred), _ => (st, s!"err ## v={if pred.isSome then "ok" else "err"}")
     | _, _ => bad
   | some "exec" =>
-    match st.world, natKv ws "now", parseOp ws with
-    | some w, some now, some op =>
-      match step (hashOf st) now w op with
-      | some w' => ({ st with world := some w' }, s!"ok {obs now w'}")
-      | none => (st, s!"err {obs now w}")
-    | _, _, _ => bad
+    match st.world, natKv ws "now", parseWlOp st ws, boolKv ws "res" with
+    | some w, some now, some o, some res =>
+      let post? := if res then parsePost st ws else some w.wl
+      match post? with
+      | none => bad
+      | some post =>
+        let w' := step' (hashOf st) w (now, .wlMsg res post)
+        let d := match predict now w.wl o with
+          | some p => s!"v=ok {obsD p}"
+          | none => s!"v=err {obsD w'.wl}"
+        ({ st with world := some w' }, s!"x {obsP now w'.wl} ## {d}")
+    | _, _, _, _ => bad
   | some "has" =>
     match st.world, natKv ws "now", hexArg ws "m", kv ws "proof" with
     | some w, some now, some m, some pf =>
@@ -140,15 +183,14 @@ def c14Line (st : DS) (line : String) : DS × String :=
       | none => (st, "err")
     | _, _, _, _ => bad
   | some "mint" =>
-    match st.world, natKv ws "now", hexArg ws "sender", optNatKv ws "stage", optNatKv ws "alloc", kv ws "proof" with
-    | some w, some now, some sender, some stage, some alloc, some pf =>
+    match st.world, natKv ws "now", hexArg ws "sender", optNatKv ws "stage", optNatKv ws "alloc", kv ws "proof",
+        boolKv ws "res" with
+    | some w, some now, some sender, some stage, some alloc, some pf, some res =>
       let proof := if pf == "none" then none else some (strList pf)
-      match step (hashOf st) now w (.mint sender stage alloc proof) with
-      | some w' =>
-        let key := match w'.wl.active now with | some (k, _) => k | none => 0
-        ({ st with world := some w' }, s!"ok {getCount w'.counts (sender, key)}")
-      | none => (st, "err")
-    | _, _, _, _, _, _ => bad
+      match step (hashOf st) now w (.mint sender stage alloc proof res) with
+      | some w' => ({ st with world := some w' }, s!"ok ## cnt={mintedBy w' sender}")
+      | none => (st, s!"err ## cnt={mintedBy w sender}")
+    | _, _, _, _, _, _, _ => bad
   | _ => bad
 
 def main : IO Unit := runDriverRaw ({} : DS) c14Line
